@@ -112,6 +112,11 @@ def check(prog, res, tier):
                     kinds = [e.kind for e in eff]
                     fails = []
                     writes = [e for e in eff if e.kind == 'write']
+                    if not writes and any(e.kind in ('finalise', 'close') for e in eff):
+                        # the writer asks the blocker to finish (finalise / close) instead of writing the terminator through it:
+                        # what that request puts into the file is not what this rule models
+                        return [soft('the finalisation writes nothing itself but asks the 1014 blocker to finalise/close: what reaches '
+                                     'the file that way is outside the model of this rule')]
                     if not writes or not is_terminator(writes[0].data['data']):
                         fails.append(definite(f'the first bytes written by the finalisation are not the zero-length terminator: '
                                               f'{writes[0].data["data"]!r}' if writes else 'finalisation writes nothing'))
